@@ -764,6 +764,25 @@ Section Store.
     | None => s
     end.
 
+  (* FailureCache.ResetZone / ResetMatching: exact history and every ancestor-zone history *)
+  Definition reset_fzone (zone : bytes) (qclass : N) (s : store) : store :=
+    let z := canonical zone in
+    let k := salt_fz (H (fz_pre z qclass)) in
+    match kget k (st_fail s) with
+    | Some fe =>
+        match f_kind fe with
+        | FZone =>
+            if bytes_eqb (f_zone fe) z && (f_zclass fe =? qclass)
+            then mk_store (st_pos s) (st_neg s) (kremove k (st_fail s)) (st_cuts s) (st_cuthash s)
+            else s
+        | FQuestion => s
+        end
+    | None => s
+    end.
+  Definition reset_matching (q : question) (cd : bool) (p : option scope) (s : store) : store :=
+    fold_left (fun st zone => reset_fzone zone (q_class q) st)
+              (name_suffixes (canonical (q_name q))) (reset_fquestion q cd p s).
+
   (* Store.SetFromResponseWithKey / SetFromResponseScoped on a cacheable answer:
      file the entry, and for an unscoped write reset the question's failure history *)
   Definition store_set_from_response (k : K) (rq : question) (key_cd : bool) (p : option scope) (id : N) (alias : option bytes) (s : store) : store :=
@@ -799,6 +818,27 @@ Section Store.
                   (kset (salt_cut (H (cut_pre (canonical kname) kclass))) c (st_cuthash s))
     | None => s
     end.
+
+  (* ---- ResponseWriter.WriteMsg: what a downstream response leaves in the store.
+     client = the request's scope (requestScope, already masked); the downstream echoes the
+     client's ECS address with SCOPE = scope_bits (0 = global) *)
+  Definition writeback_scope (client : option scope) (scope_bits : N) : option scope :=
+    match client with
+    | Some c =>
+        (* ReadResponseScope: SCOPE 0 is "global"; a SCOPE longer than the family's address makes
+           addr.Prefix fail and the answer is treated as global too *)
+        if (scope_bits =? 0) || ((if sc_is4 c then 32 else 128) <? scope_bits) then None
+        else Some (addr_prefix (sc_is4 c) (sc_addr c) (N.min scope_bits (sc_bits c)))   (* ClampScope *)
+    | None => None
+    end.
+  Definition writeback_answer (q : question) (cd : bool) (client : option scope) (scope_bits : N) (id : N) (s : store) : store :=
+    let sc := writeback_scope client scope_bits in
+    reset_matching q cd client
+      (store_set_from_response (H (cachekey_pre q cd sc)) q cd sc id None s).
+  (* every SERVFAIL exit (downstream SERVFAIL, alias chase ending in SERVFAIL): the failure is
+     recorded for the REQUEST's audience *)
+  Definition writeback_failure (q : question) (cd : bool) (client : option scope) (id : N) (s : store) : store :=
+    record_fquestion q cd client id s.
 
   (* ---- what a client of the edns+cache pipeline observes *)
   Inductive outcome := OMiss | OHit (id : N) | OCut (id : N) | OFail (id : N).
